@@ -35,7 +35,7 @@ def cases(draw):
     w = draw(st.sampled_from([2, 2, 3]))
     k = draw(st.integers(1, 3))
     n = draw(st.integers(k, 10))
-    return {"hsalt": draw(st.integers(0, 15)), "threads": draw(st.sampled_from(["sync", "async"])), "fmt": draw(st.sampled_from(["sdmf", "mdmf"])), "k": k, "n": n, "servers": draw(st.integers(2, 10)), "writers": w, "size": draw(st.sampled_from([0, 1, 20, 70])),
+    return {"hsalt": draw(st.integers(0, 15)), "threads": draw(st.sampled_from(["sync", "async", "held"])), "fmt": draw(st.sampled_from(["sdmf", "mdmf"])), "k": k, "n": n, "servers": draw(st.integers(2, 10)), "writers": w, "size": draw(st.sampled_from([0, 1, 20, 70])),
             "lost": draw(st.lists(st.integers(0, 9), max_size=2)),
             "sched": draw(st.lists(st.integers(0, 14), max_size=draw(st.sampled_from([10, 60, 300]))))}
 
@@ -61,7 +61,7 @@ def checkstring(data):
 
 def run_case(case, ctx):
     from vf import boot as _boot
-    _boot.set_thread_mode(case.get("threads") == "async")      # defer_to_thread answered in a later reactor turn (as in production) or synchronously
+    _boot.set_thread_mode(case.get("threads") or "sync")      # defer_to_thread answered in a later reactor turn (as in production) or synchronously
     from allmydata.mutable.common import UncoordinatedWriteError
     k, n, fmt, nw = case["k"], case["n"], case["fmt"], case["writers"]
     mutfile.set_segsize(64)
